@@ -50,6 +50,10 @@ def configs(thorough: bool) -> List[Dict[str, Any]]:
         if ro:
             cfg["readonly"] = [(0x00000, 0x01FFF)]
         out.append(cfg)
+        if rom and not mirror and not ro:
+            short = dict(cfg)
+            short["rom_len"] = 0x100          # image shorter than the 0xC0000-0xFFFFF window (Python only: overlay data < window)
+            out.append(short)
     return out
 
 
@@ -65,7 +69,7 @@ def make_py(cfg) -> PCE500Memory:
         start, size = cfg["rom_image"]
         if (start, size) not in _ROM_CACHE:
             _ROM_CACHE[(start, size)] = bytes(ROM_BYTE(start + i) for i in range(size))
-        m.load_rom(_ROM_CACHE[(start, size)])
+        m.load_rom(_ROM_CACHE[(start, size)][: cfg.get("rom_len", size)])
     card = cfg.get("card")
     if card is not None:
         if card == 0:
@@ -203,7 +207,7 @@ def judge(impl, cfg, hist, outs, probe_vals, pr, vb: VB, pre_probe: Optional[Lis
     violation is attributed to the operation that causes it; with pre_probe=None the whole history is judged
     against the reference (used for the initial state and the load scripts)."""
     wit = lambda: {"impl": impl, "cfg": _cfg_json(cfg), "history": [list(o) for o in hist]}  # noqa: E731
-    cfgtag = "+".join(k for k in ("rom_image", "card", "ram_overlays", "readonly", "mirror") if cfg.get(k)) or "plain"
+    cfgtag = "+".join(k for k in ("rom_image", "rom_len", "card", "ram_overlays", "readonly", "mirror") if cfg.get(k)) or "plain"
     if pre_probe is None:
         ref_outs, ref_probe, r = run_ref(cfg, hist, pr, impl)
         for i, (a, b) in enumerate(zip(outs, ref_outs)):
@@ -281,8 +285,8 @@ def events(seed: int) -> List[Tuple]:
         vals.append((seed * 0x9E3779B1) & 0xFFFFFF)
     for a in addrs:
         for w in (1, 2, 3):
-            for v in vals[: (2 if w == 1 else len(vals))]:
-                ev.append(("st", a, w, v if w > 1 else (v & 0xFF) or 0x5A))
+            for v in (vals if w > 1 else [0x5A, 0xA5, 0x00]):      # 0x00 = "write the initial value back"
+                ev.append(("st", a, w, v))
     return ev
 
 
@@ -354,17 +358,17 @@ def run(ctx) -> None:
     cfgs = configs(ctx.thorough)
     evs = events(ctx.seed)
     depth = 2
-    small = [e for e in evs if e[3] in (0xA5, 0x5AA5C3, 0x5A) and e[1] in (0x0, 0x1FFF, 0x40000, 0x41FFF, 0x4FFFF, 0x87FFF, 0xB8000, 0xBFFFF,
+    small = [e for e in evs if (e[3] in (0xA5, 0x5AA5C3, 0x5A) or (e[3] == 0 and e[2] == 1)) and e[1] in (0x0, 0x1FFF, 0x40000, 0x41FFF, 0x4FFFF, 0x87FFF, 0xB8000, 0xBFFFF,
                                                                            0xC0000, 0xFFFFF, 0x1000FF, 0x1000EC, 0x100000, 0xFFF00)]
     jobs = []
     n = nproc()
     for impl in ("python", "rust"):
-        use = [c for c in cfgs if impl == "rust" or not (c.get("mirror") or c.get("readonly"))]
+        use = [c for c in cfgs if (impl == "rust" and not c.get("rom_len")) or (impl == "python" and not (c.get("mirror") or c.get("readonly")))]
         for cs in chunks(use, n):
             jobs.append((impl, cs, evs, small if not ctx.thorough else evs[::2], depth))
     res = pmap(_shard, jobs)
     lres = pmap(_loads, [(impl, cs) for impl in ("python", "rust")
-                         for cs in chunks([c for c in cfgs if impl == "rust" or not (c.get("mirror") or c.get("readonly"))], 4)])
+                         for cs in chunks([c for c in cfgs if (impl == "rust" and not c.get("rom_len")) or (impl == "python" and not (c.get("mirror") or c.get("readonly")))], 4)])
     for r in res + lres:
         ctx.merge_bucket(r["vb"])
     ctx.level = "model_checking"
